@@ -262,6 +262,14 @@ def run(res):
     if exe is None:
         raise vlib.Infra("queueswap harness does not build against /repo (is the tree compilable?):\n" + err)
     confirmed = confirm_findings(res, exe)
+    # search-only tier, never a verdict: the F24 scenario under the REAL Queue.Start() goroutines and the real 20 ms store tickers
+    try:
+        rt = vlib.harness(exe, ["realtime"], timeout=120).splitlines()
+        res.cov["real_scheduler_runs"] = {"what": "limit 2, push 1-4, pop x3, push 5, drain; every operation followed by a pause of 0 or 45 ms; "
+                                          "unlimited list delivers 1,2,3,4,5", "lines": rt,
+                                          "F24_under_real_timing": any("step=0s" in l and "deliveries=1,2,3,5" in l for l in rt)}
+    except vlib.Infra as e:
+        res.notes.append("realtime runs failed: %s" % str(e)[:200])
     cases = []
     if os.path.isdir(CORPUS):
         for fn in sorted(os.listdir(CORPUS)):
